@@ -1000,6 +1000,9 @@ def check_glue(ctx, gs, d, n_relabel=1, replay_relabelled=None):
             ctx.disagree("c11.run", req, {"error": res["error"], "rows": {str(kk): {x: v.get(x) for x in NUMERIC + ['sample', 'het_variants0']}
                                                                        for kk, v in res["rows"].items()},
                                           "bed": res["bedseq"], "multiway": res["multiway"]}, ans)
+    # ---- (b') three-way: Lean definition of the report (`c11.runspec`) vs the CLI rows vs the Python oracle vs the Lean model
+    if p == 2 and not multi:
+        check_runspec(ctx, gs, res, names, req, answers[2], fail)
     # multiway sample column: file order of the distinct names is the only order that does not depend on the hash seed
     if p == 2 and k > 2 and o["ignore"] and res["rc"] == 0 and names is not None and len(set(names)) > 1:
         first = list(dict.fromkeys(names))
@@ -1043,6 +1046,91 @@ def check_glue(ctx, gs, d, n_relabel=1, replay_relabelled=None):
 # ------------------------------------------------------------------------------------------------
 # run
 # ------------------------------------------------------------------------------------------------
+
+def check_runspec(ctx, gs, res, names, req, model_ans, fail):
+    """three-way comparison for a diploid glue scenario: the Lean DEFINITION of the pairwise report (`Spec/C11Run.lean`, op
+    `c11.runspec`: common heterozygous variants, intersection blocks by naive group-by, per block switch errors = correspondence
+    changes, switch/flip = run lengths, Hamming = min over correspondences, totals = sums, first longest block, BED rows,
+    het_variants0) against (1) every row the REAL `whatshap compare` wrote (`ctx.fail`, keys `runspec-*`: the Lean spec is the
+    property predicate here), (2) the Python oracle `G.pair_definitions` (`ctx.disagree c11.runspec-oracle`), (3) the Lean model
+    `c11.run` with the repaired flags (`ctx.disagree c11.runspec`; proved for all inputs as far as `Props.C11.run_compare_meets_spec*`
+    goes)."""
+    spec = ctx.model.ask_many([dict(req, op="c11.runspec")])[0]
+    if "error" in spec or "error" in model_ans:
+        if ("error" in spec) != ("error" in model_ans) or spec.get("error") != model_ans.get("error"):
+            ctx.disagree("c11.runspec", req, model_ans.get("error"), spec.get("error"))
+        return
+    ctx.dist("runspec_checked", True)
+    mchroms = {ch["chrom"]: ch for ch in model_ans["chroms"]}
+    for sc in spec["chroms"]:
+        c = sc["chrom"]
+        mch = mchroms.get(c)
+        for pr in sc["pairs"]:
+            i, j, S = pr["i"], pr["j"], pr["spec"]
+            key = (c, i, j)
+            where = f"{c} f{i}<->f{j}: "
+            # (1) the real rows
+            row = res["rows"].get(key)
+            if row is not None:
+                got = dict(intersection_blocks=int(row["intersection_blocks"]), covered_variants=int(row["covered_variants"]),
+                           assessed_pairs=int(row["all_assessed_pairs"]), switches=frac(float(row["all_switches"])),
+                           sf=list(parse_sf(row["all_switchflips"])), hamming=frac(float(row["blockwise_hamming"])),
+                           diff=int(row["blockwise_diff_genotypes"]),
+                           largest_pairs=int(row["largestblock_assessed_pairs"]), het0=int(row["het_variants0"]))
+                want = dict(intersection_blocks=S["intersection_blocks"], covered_variants=S["covered_variants"],
+                            assessed_pairs=S["assessed_pairs"], switches=S["switches"], sf=S["sf"], hamming=S["hamming"],
+                            diff=S["diff"], largest_pairs=max(S["largest_len"] - 1, 0), het0=pr["het0"])
+                for col in want:
+                    if got[col] != want[col]:
+                        fail(where + f"{col}: whatshap compare reports {got[col]}, the definition (Lean Spec.pairSpec) gives {want[col]}",
+                             "runspec-" + col)
+                cands = [b for b in S["blocks"] if len(b["positions"]) == S["largest_len"]]
+                lgot = (frac(float(row["largestblock_switches"])), list(parse_sf(row["largestblock_switchflips"])),
+                        frac(float(row["largestblock_hamming"])), int(row["largestblock_diff_genotypes"]))
+                if cands and not any(lgot == (b["switches"], b["sf"], b["hamming"], b["diff"]) for b in cands):
+                    fail(where + f"largest block numbers {lgot} are those of no intersection block of maximal length (Lean Spec)", "runspec-largest")
+                if not cands and lgot != (0, [0, 0], 0, 0):
+                    fail(where + f"largest block numbers {lgot} although there is no intersection block", "runspec-largest")
+                if "crash" not in res and sorted(res["bed"].get(key, [])) != sorted(tuple(b) for b in S["bed"]):
+                    fail(where + f"--switch-error-bed rows {sorted(res['bed'].get(key, []))} != rows by definition {sorted(S['bed'])}", "runspec-bed")
+            # (2) the Python oracle
+            if names is not None:
+                t0, t1 = gs.pair_tables(c, i, j, names)
+                D = G.pair_definitions(t0, t1, 2)
+                o_ = dict(common_het=len(D["common"]), intersection_blocks=D["intersection_blocks"], covered_variants=D["covered"],
+                          assessed_pairs=D["pairs"], switches=D["total"]["switches"], hamming=D["total"]["hamming"], diff=D["total"]["diff"],
+                          sfsum=D["total"]["sf_cost"], largest_len=D["longest_len"],
+                          blocks=[([D["common"][v] for v in b], d["switches"], d["hamming"], d["diff"], d["sf_cost"]) for b, _, _, d in D["per_block"]])
+                s_ = dict(common_het=S["common_het"], intersection_blocks=S["intersection_blocks"], covered_variants=S["covered_variants"],
+                          assessed_pairs=S["assessed_pairs"], switches=S["switches"], hamming=S["hamming"], diff=S["diff"],
+                          sfsum=sum(S["sf"]), largest_len=S["largest_len"],
+                          blocks=[(b["positions"], b["switches"], b["hamming"], b["diff"], sum(b["sf"])) for b in S["blocks"]])
+                if o_ != s_:
+                    ctx.disagree("c11.runspec-oracle", {"t0": table_json(t0), "t1": table_json(t1)},
+                                 {k_: str(v) for k_, v in o_.items() if v != s_[k_]}, {k_: str(v) for k_, v in s_.items() if o_[k_] != v})
+            # (3) the Lean model (repaired flags)
+            mp = next((x for x in (mch["pairs"] if mch else []) if (x["i"], x["j"]) == (i, j)), None)
+            if mp is None or mp["result"] is None:
+                ctx.disagree("c11.runspec", req, "model has no result for " + str(key), S)
+                continue
+            R = mp["result"]
+            m_ = dict(het0=mp["het0"], intersection_blocks=R["intersection_blocks"], covered_variants=R["covered_variants"],
+                      assessed_pairs=R["assessed_pairs"], switches=R["total"]["switches"], sf=R["total"]["sf"], hamming=R["total"]["hamming"],
+                      diff=R["total"]["diff"], largest_len=R["largest_len"],
+                      largest=(R["largest"]["switches"], R["largest"]["sf"], R["largest"]["hamming"], R["largest"]["diff"]),
+                      bed=R["bed"], blocks=[(b[0], b[1]["switches"], b[1]["sf"], b[1]["hamming"], b[1]["diff"]) for b in R["per_block"]])
+            L = S["largest"]
+            w_ = dict(het0=pr["het0"], intersection_blocks=S["intersection_blocks"], covered_variants=S["covered_variants"],
+                      assessed_pairs=S["assessed_pairs"], switches=S["switches"], sf=S["sf"], hamming=S["hamming"], diff=S["diff"],
+                      largest_len=S["largest_len"],
+                      largest=(L["switches"], L["sf"], L["hamming"], L["diff"]) if L else (0, [0, 0], 0, 0),
+                      bed=S["bed"], blocks=[(b["positions"], b["switches"], b["sf"], b["hamming"], b["diff"]) for b in S["blocks"]])
+            if m_ != w_:
+                ctx.disagree("c11.runspec", req, {k_: str(v) for k_, v in m_.items() if v != w_[k_]},
+                             {k_: str(v) for k_, v in w_.items() if m_[k_] != v})
+        if mch is not None and not mch["died"] and mch["bed"] != sc["bed"]:
+            ctx.disagree("c11.runspec", req, {"bed": mch["bed"]}, {"bed": sc["bed"]})
+
 
 def rand_hap(rng, n, alphabet=(0, 1)):
     return [rng.choice(alphabet) for _ in range(n)]
